@@ -4,6 +4,7 @@
 use core::cell::UnsafeCell;
 
 use crate::havoc::{any_bool, Havoc};
+use crate::vkey::VKey;
 use crate::CAP;
 
 pub struct Map<K, V, const SORTED: bool> {
@@ -79,29 +80,40 @@ impl<K, V, const S: bool> Map<K, V, S> {
     }
 }
 
-impl<K: PartialEq + Clone, V: Havoc, const S: bool> Map<K, V, S> {
-    /// Pointer to the value cell of `k`, allocating (and, in havoc mode, choosing) it on
-    /// first touch. Every array access below uses a loop counter, i.e. a CONCRETE index
-    /// after unwinding: CBMC never sees a symbolic array offset, only guarded accesses.
-    fn cell(&self, k: &K) -> *mut Option<V> {
+impl<K: VKey + Clone, V: Havoc, const S: bool> Map<K, V, S> {
+    /// Pointer to the value cell of a key already in the table. Every array access uses a loop
+    /// counter, i.e. a CONCRETE index after unwinding: CBMC never sees a symbolic array offset.
+    fn find<Q>(&self, k: &Q) -> Option<*mut Option<V>>
+    where
+        K: core::borrow::Borrow<Q>,
+        Q: VKey + ?Sized,
+    {
         let i = self.i();
+        let want = k.vkey();
         let mut p = 0;
         while p < CAP {
             if p < i.n {
                 if let Some(kk) = &i.keys[p] {
-                    if kk == k {
-                        return &mut i.vals[p] as *mut Option<V>;
+                    if kk.borrow().vkey() == want {
+                        return Some(&mut i.vals[p] as *mut Option<V>);
                     }
                 }
             }
             p += 1;
         }
+        None
+    }
+
+    /// Allocates the cell for a key not yet in the table; in havoc mode its presence and
+    /// value are chosen nondeterministically (first touch).
+    fn alloc(&self, k: K) -> *mut Option<V> {
+        let i = self.i();
         assert!(i.n < CAP, "vcoll: footprint capacity exceeded");
         let v = if i.havoc && any_bool() { Some(V::havoc()) } else { None };
         let mut p = 0;
         while p < CAP {
             if p == i.n {
-                i.keys[p] = Some(k.clone());
+                i.keys[p] = Some(k);
                 i.vals[p] = v;
                 i.n += 1;
                 return &mut i.vals[p] as *mut Option<V>;
@@ -111,28 +123,74 @@ impl<K: PartialEq + Clone, V: Havoc, const S: bool> Map<K, V, S> {
         unreachable!()
     }
 
-    fn val(&self, k: &K) -> &mut Option<V> {
-        unsafe { &mut *self.cell(k) }
+    fn cell(&self, k: &K) -> *mut Option<V> {
+        match self.find(k) {
+            Some(c) => c,
+            None => self.alloc(k.clone()),
+        }
     }
 
-    pub fn get(&self, k: &K) -> Option<&V> {
-        self.val(k).as_ref()
+    /// lookup that never stores anything for a concrete map (a miss is just a miss)
+    fn peek<Q>(&self, k: &Q) -> Option<*mut Option<V>>
+    where
+        K: core::borrow::Borrow<Q>,
+        Q: VKey + ToOwned<Owned = K> + ?Sized,
+    {
+        match self.find(k) {
+            Some(c) => Some(c),
+            None => {
+                if self.i().havoc {
+                    Some(self.alloc(k.to_owned()))
+                } else {
+                    None
+                }
+            },
+        }
     }
 
-    pub fn get_mut(&mut self, k: &K) -> Option<&mut V> {
-        self.val(k).as_mut()
+    pub fn get<Q>(&self, k: &Q) -> Option<&V>
+    where
+        K: core::borrow::Borrow<Q>,
+        Q: VKey + ToOwned<Owned = K> + ?Sized,
+    {
+        match self.peek(k) {
+            Some(c) => unsafe { (*c).as_ref() },
+            None => None,
+        }
     }
 
-    pub fn contains_key(&self, k: &K) -> bool {
+    pub fn get_mut<Q>(&mut self, k: &Q) -> Option<&mut V>
+    where
+        K: core::borrow::Borrow<Q>,
+        Q: VKey + ToOwned<Owned = K> + ?Sized,
+    {
+        match self.peek(k) {
+            Some(c) => unsafe { (*c).as_mut() },
+            None => None,
+        }
+    }
+
+    pub fn contains_key<Q>(&self, k: &Q) -> bool
+    where
+        K: core::borrow::Borrow<Q>,
+        Q: VKey + ToOwned<Owned = K> + ?Sized,
+    {
         self.get(k).is_some()
     }
 
     pub fn insert(&mut self, k: K, v: V) -> Option<V> {
-        self.val(&k).replace(v)
+        unsafe { (*self.cell(&k)).replace(v) }
     }
 
-    pub fn remove(&mut self, k: &K) -> Option<V> {
-        self.val(k).take()
+    pub fn remove<Q>(&mut self, k: &Q) -> Option<V>
+    where
+        K: core::borrow::Borrow<Q>,
+        Q: VKey + ToOwned<Owned = K> + ?Sized,
+    {
+        match self.peek(k) {
+            Some(c) => unsafe { (*c).take() },
+            None => None,
+        }
     }
 
     pub fn entry(&mut self, k: K) -> Entry<'_, K, V, S> {
@@ -392,14 +450,14 @@ impl<K: PartialOrd, V, const S: bool> Map<K, V, S> {
     }
 }
 
-impl<K: PartialEq + Clone, V: Havoc, const S: bool> Extend<(K, V)> for Map<K, V, S> {
+impl<K: VKey + Clone, V: Havoc, const S: bool> Extend<(K, V)> for Map<K, V, S> {
     fn extend<T: IntoIterator<Item = (K, V)>>(&mut self, iter: T) {
         for (k, v) in iter {
             self.insert(k, v);
         }
     }
 }
-impl<K: PartialEq + Clone, V: Havoc, const S: bool> FromIterator<(K, V)> for Map<K, V, S> {
+impl<K: VKey + Clone, V: Havoc, const S: bool> FromIterator<(K, V)> for Map<K, V, S> {
     fn from_iter<T: IntoIterator<Item = (K, V)>>(iter: T) -> Self {
         let mut m = Map::new();
         m.extend(iter);
@@ -446,14 +504,22 @@ impl<K, const S: bool> Set<K, S> {
         self.m.clear()
     }
 }
-impl<K: PartialEq + Clone, const S: bool> Set<K, S> {
+impl<K: VKey + Clone, const S: bool> Set<K, S> {
     pub fn insert(&mut self, k: K) -> bool {
         self.m.insert(k, ()).is_none()
     }
-    pub fn remove(&mut self, k: &K) -> bool {
+    pub fn remove<Q>(&mut self, k: &Q) -> bool
+    where
+        K: core::borrow::Borrow<Q>,
+        Q: VKey + ToOwned<Owned = K> + ?Sized,
+    {
         self.m.remove(k).is_some()
     }
-    pub fn contains(&self, k: &K) -> bool {
+    pub fn contains<Q>(&self, k: &Q) -> bool
+    where
+        K: core::borrow::Borrow<Q>,
+        Q: VKey + ToOwned<Owned = K> + ?Sized,
+    {
         self.m.contains_key(k)
     }
 }
@@ -465,6 +531,23 @@ impl<K: PartialOrd, const S: bool> Set<K, S> {
         self.m.retain(|k, _| f(k))
     }
 }
+impl<K, const S: bool> Havoc for Set<K, S> {
+    fn havoc() -> Self {
+        Set::arbitrary_unbounded()
+    }
+}
+impl<K, V, const S: bool> Havoc for Map<K, V, S> {
+    fn havoc() -> Self {
+        Map::arbitrary_unbounded()
+    }
+}
+pub mod btree_set {
+    pub use super::BTreeSet;
+}
+pub mod hash_set {
+    pub use super::HashSet;
+}
+
 pub struct SetIntoIter<K, const S: bool> {
     it: IntoIter<K, (), S>,
 }
@@ -481,14 +564,14 @@ impl<K: PartialOrd + Clone, const S: bool> IntoIterator for Set<K, S> {
         SetIntoIter { it: self.m.into_iter() }
     }
 }
-impl<K: PartialEq + Clone, const S: bool> Extend<K> for Set<K, S> {
+impl<K: VKey + Clone, const S: bool> Extend<K> for Set<K, S> {
     fn extend<T: IntoIterator<Item = K>>(&mut self, iter: T) {
         for k in iter {
             self.insert(k);
         }
     }
 }
-impl<K: PartialEq + Clone, const S: bool> FromIterator<K> for Set<K, S> {
+impl<K: VKey + Clone, const S: bool> FromIterator<K> for Set<K, S> {
     fn from_iter<T: IntoIterator<Item = K>>(iter: T) -> Self {
         let mut s = Set::new();
         s.extend(iter);
